@@ -102,7 +102,7 @@ def handleTrace (cap : Nat) (mode : String) (evs : List String) : Option String 
   match lcheckTrace cap f linit 0 les with
   | .error (i, msg) => pure s!"invalid:{msg}@{i}"
   | .ok s =>
-    let fair := if traceFair cap f init es then 1 else 0
+    let fair := if ltraceFair cap f linit les then 1 else 0
     let ans := s.delivered.map fun (i, r) => s!"{i}={r}"
     pure (" ".intercalate (["ok", s!"fair={fair}", s!"pending={s.waiting.length}"] ++ ans))
 
